@@ -14,15 +14,18 @@ CLAIM = {
             "state stack ends the run with the corresponding error and no bytes (C04_errors_*); compiled programs send chan/func/complex/"
             "unsafe.Pointer to that error; output of a user MarshalJSON is rejected unless it is one well-formed JSON value or validation "
             "was explicitly disabled (C04_marshaler_output_*). C04_wellformed_partial_jit/_vm: for every typed value of the proved fragment "
-            "(bool/int/float/string scalars, pointers, slices, arrays, []byte, structs without field options; state-stack need <= 4096) and every "
-            "option word without NoNullSliceOrMap, Marshal (compile, execute, encodeFinish incl. the HTML-escape and UTF-8 correction passes) "
-            "stops with one strict RFC 8259 value, which property C02's model of sonic's own validator accepts; no hypothesis on the reference "
-            "encoder (C04_reference_total). Decided on the real code every run (not theorems): well-formedness of every "
+            "(bool/int/float/string scalars, pointers, slices, arrays, []byte, structs whose fields carry no option, omitempty (bool, ints, string, "
+            "pointer, slice) or `,string` (scalars); state-stack need <= 4096) and EVERY option word, Marshal (compile, execute, encodeFinish incl. "
+            "the HTML-escape and UTF-8 correction passes) stops with one strict RFC 8259 value, which property C02's model of sonic's own validator "
+            "accepts; no hypothesis on the reference. Switches (for C18): C04_switch_irrelevant_* (no option bit other than NoNullSliceOrMap changes "
+            "the executed bytes on the fragment: EncodeNullForInfOrNan, SortMapKeys, ...), C04_switch_nonull_* (execution = the reference run with "
+            "that bit, which only prints nil slices/maps as []/{}), C04_switch_nan_null + C04_errors_nan_toplevel (the NaN bit turns exactly the "
+            "failure into null). The reference encoder is total on the fragment (C04_reference_total). Decided on the real code every run (not theorems): well-formedness of every "
             "successful output (json.Valid as oracle) and the round trip sonic->sonic and sonic->encoding/json (floats bit for bit, ints "
             "exactly, valid-UTF-8 strings bytewise, containers element-wise) under random 9-bit option words (all 512 on the corpus in the "
             "thorough tier), in a JIT and an interpreter process, all tied to the model's prediction.",
     "note": "Trusted: Coq kernel, extraction, translator, Go harness (its DeepEqual-like comparison), encoding/json (Valid, Unmarshal) as oracle. "
-            "C04_wellformed is a theorem for the fragment only (maps, interfaces, Marshaler/TextMarshaler types, field options, NoNullSliceOrMap are "
+            "C04_wellformed is a theorem for the fragment only (maps, interfaces, Marshaler/TextMarshaler types, omitzero / omitempty on floats / embedded pointers are "
             "outside it: tie-level there); C04_roundtrip is tie-level throughout (see notes/C04.md).",
     "technique": "Coq proof of the error paths + differential well-formedness / round-trip search over option words",
 }
@@ -151,14 +154,14 @@ def run(ctx):
     ctx.trusted = c.TRUSTED_COMMON + [c.TRUSTED_TX, c.TRUSTED_EXTRACT,
                                      "encoding/json (Valid, Unmarshal) and the harness's value comparison as the round-trip oracle; strconv for float digits"]
     ctx.assumptions = [
-        "C04_wellformed is proved for the fragment of C03_code_ok_frag only; outside it, and C04_roundtrip everywhere, are decided on the real code per run (oracle json.Valid / decode-and-compare)",
+        "C04_wellformed is proved for the fragment of C03_code_ok_frag only (every option word); outside it, and C04_roundtrip everywhere, are decided on the real code per run (oracle json.Valid / decode-and-compare)",
         "C04_wellformed_partial_*: float digit strings are an oracle of the value (has_type ... fok_wf: finite, printed unchanged by the executor, inside the RFC 8259 number grammar)",
         "round trip is claimed for types without interfaces, user Marshal methods, embedded pointers, bool/float map keys; values without invalid UTF-8, NaN/Inf, cycles",
         "exempt from well-formedness by the statement itself: NoQuoteTextMarshaler with a TextMarshaler value; NoValidateJSONMarshaler without CompactMarshaler with a Marshaler value",
     ]
     t0 = time.time()
     ctx.cov["phase_s"] = {}
-    p_ok = c.standard_P(ctx, CLAIM["gens"], L.SUPPORT + ["Enc/C04Proofs.v", "Enc/WellFormed.v", "Enc/Finish.v", "Enc/WfMarshal.v"])
+    p_ok = c.standard_P(ctx, CLAIM["gens"], L.SUPPORT + ["Enc/C04Proofs.v", "Enc/WellFormed.v", "Enc/Finish.v", "Enc/WfMarshal.v", "Enc/Switches.v"])
     ctx.cov["phase_s"]["P"] = round(time.time() - t0, 1)
     ctx.problems = []
     if not p_ok:
